@@ -563,9 +563,74 @@ def _operator_module_calls(tree):
     T().visit(tree)
 
 
+def _unroll_literal_loops(tree):
+    """`for v in ('a', 'b'): <body>` is the body once per literal, with the
+    literal for v -- a short statement table written as a loop.  Only for a
+    plain variable over a tuple / list of at most 6 constants, a body of
+    simple statements (no break / continue, no nested definitions, v not
+    re-bound) and v unused outside the loop."""
+    from .symcase import clone
+
+    def eligible(st, fn):
+        if not (isinstance(st, ast.For) and not st.orelse and isinstance(st.target, ast.Name)
+                and isinstance(st.iter, (ast.Tuple, ast.List)) and 1 <= len(st.iter.elts) <= 6
+                and all(isinstance(e, ast.Constant) for e in st.iter.elts)
+                and len(st.body) <= 6):
+            return False
+        v = st.target.id
+        for b in st.body:
+            for n in ast.walk(b):
+                if isinstance(n, (ast.Break, ast.Continue, ast.FunctionDef, ast.ClassDef,
+                                  ast.Lambda, ast.Yield, ast.YieldFrom, ast.For, ast.While,
+                                  ast.ListComp, ast.GeneratorExp, ast.SetComp, ast.DictComp)):
+                    return False
+                if isinstance(n, ast.Name) and n.id == v and not isinstance(n.ctx, ast.Load):
+                    return False
+        inside = sum(1 for n in ast.walk(st) if isinstance(n, ast.Name) and n.id == v)
+        total = sum(1 for n in ast.walk(fn) if isinstance(n, ast.Name) and n.id == v)
+        return inside == total
+
+    def unroll(st):
+        v = st.target.id
+        out = []
+        for e in st.iter.elts:
+            class S(ast.NodeTransformer):
+                def visit_Name(self, n):
+                    if n.id == v and isinstance(n.ctx, ast.Load):
+                        return ast.copy_location(ast.Constant(value=e.value), n)
+                    return n
+            for b in st.body:
+                out.append(S().visit(clone(b)))
+        return out
+
+    def block(stmts, fn):
+        i = 0
+        while i < len(stmts):
+            st = stmts[i]
+            if isinstance(st, (ast.FunctionDef, ast.AsyncFunctionDef)):
+                block(st.body, st)
+            elif isinstance(st, ast.ClassDef):
+                block(st.body, fn)
+            else:
+                if fn is not None and eligible(st, fn):
+                    rep = unroll(st)
+                    stmts[i:i + 1] = rep
+                    i += len(rep)
+                    continue
+                for fld in ("body", "orelse", "finalbody"):
+                    sub = getattr(st, fld, None)
+                    if isinstance(sub, list) and sub and isinstance(sub[0], ast.stmt):
+                        block(sub, fn)
+                for h in getattr(st, "handlers", []) or []:
+                    block(h.body, fn)
+            i += 1
+    block(tree.body, None)
+
+
 def normalise(tree):
     _drop_pass(tree)
     _operator_module_calls(tree)
+    _unroll_literal_loops(tree)
     _expand_ifexp(tree)
     _merge_nested_ifs(tree)
     for fn in [n for n in ast.walk(tree)
